@@ -49,6 +49,21 @@ pub fn fill_structured(blocks: &mut [[u8; 64]], seed: u64) -> &'static str {
             }
             "zero blocks"
         }
+        9 if (seed >> 52) % 2 == 0 => {
+            // 16-byte quarters of the block (the lanes of the 128-bit kernels: low / high bytes of slots 0..16 and 16..32)
+            // zeroed by one mask for the whole buffer ("columns") or by a mask per block
+            let col = 1 + (seed >> 53) as usize % 14;
+            let per_block = (seed >> 57) % 2 == 0;
+            for blk in blocks.iter_mut() {
+                let m = if per_block { 1 + rng.below(14) } else { col };
+                for q in 0..4 {
+                    if m >> q & 1 == 1 {
+                        blk[16 * q..16 * q + 16].fill(0);
+                    }
+                }
+            }
+            "quarter blocks zero"
+        }
         _ => {
             let which = (seed >> 48) % 3;
             for (i, blk) in blocks.iter_mut().enumerate() {
